@@ -116,7 +116,9 @@ type Frame struct {
 	CRC     uint16 `json:"crc,omitempty"`
 	Len     int    `json:"len"`
 	Fill    uint64 `json:"fill"`
-	Sync    bool   `json:"sync,omitempty"` // payload starts with bytes that look like a sync word
+	Sync    bool   `json:"sync,omitempty"`    // payload starts with bytes that look like a sync word
+	Wrapped bool   `json:"wrapped,omitempty"` // the raw block is itself one complete, well-formed ADTS frame of exactly Len bytes (Len >= 8)
+	Bad     uint8  `json:"bad,omitempty"`     // object machine, decode: the frame carries this invalid sampling index (13..15) / 16 = channel configuration 0, and must be rejected
 }
 
 type FCase struct {
@@ -124,6 +126,9 @@ type FCase struct {
 }
 
 func (f Frame) raw() []byte {
+	if f.Wrapped && f.Len >= 8 {
+		return adtsref.Write(adtsref.Header{ID: uint8(f.Fill & 1), ProtectionAbsent: 1, Profile: uint8(f.Fill>>1) % 3, SFI: 1 + uint8(f.Fill>>3)%12, Channels: 1 + uint8(f.Fill>>8)%7}, rtmpx.Fill(f.Len-7, f.Fill))
+	}
 	b := rtmpx.Fill(f.Len, f.Fill)
 	if f.Sync && len(b) >= 2 {
 		b[0], b[1] = 0xff, 0xf1
@@ -257,7 +262,7 @@ var recStream = ev.New(prop, "adts-streams",
 	"rapid-generated concatenations of 1-6 frames, each either encoded by the library (object type, index, channels drawn from the accepted set) or written by the independent ISO 13818-7 writer "+
 		"(MPEG-2/4 id, with/without CRC), raw lengths at {1,2,7,8,255,256,2047,2048,8183,8184} or uniform, payloads optionally containing 0xFFF sync patterns; decoded one frame at a time; "+
 		"non-trivial = >=2 frames or a CRC frame or a boundary length").
-	Require("multi", "crc", "lib", "ref", "sync-in-payload", "max-length")
+	Require("multi", "crc", "lib", "ref", "sync-in-payload", "max-length", "payload-is-an-adts-frame")
 
 func TestStreams(t *testing.T) {
 	ev.Rapid(t, "adts-streams", 6000, 8000000, func(t *rapid.T) {
@@ -294,6 +299,10 @@ func TestStreams(t *testing.T) {
 			}
 			if f.Sync {
 				cl = append(cl, "sync-in-payload")
+			}
+			if f.Len >= 8 && rapid.IntRange(0, 7).Draw(t, "wrapped") == 0 {
+				f.Wrapped, f.Sync = true, false
+				cl = append(cl, "payload-is-an-adts-frame")
 			}
 			c.Frames = append(c.Frames, f)
 		}
@@ -386,6 +395,19 @@ func runObject(c OCase) error {
 				return fmt.Errorf("step %d: ISO parser recovers %d payload bytes and %d trailing, want %d and 0", i, len(p), len(rest), len(raw))
 			}
 			kept = append(kept, keptFrame{i, fb, append([]byte(nil), fb...), append([]byte(nil), raw...)})
+		case "decode-bad":
+			// a frame the library does not accept (sampling index 13..15 or channel configuration 0): it is rejected,
+			// and whatever the object holds afterwards, the NEXT accepted call decides its configuration
+			h := adtsref.Header{ID: f.ID, ProtectionAbsent: f.PA, Profile: f.Profile, SFI: f.SFI, Channels: f.Ch, CRC: f.CRC}
+			if f.Bad == 16 {
+				h.Channels = 0
+			} else {
+				h.SFI = 13 + f.Bad%3
+			}
+			if _, _, err := ad.Decode(adtsref.Write(h, f.raw())); err == nil {
+				return fmt.Errorf("step %d: Decode accepts a frame with sampling index %d channels %d", i, h.SFI, h.Channels)
+			}
+			cur = nil
 		case "decode":
 			fb := adtsref.Write(adtsref.Header{ID: f.ID, ProtectionAbsent: f.PA, Profile: f.Profile, SFI: f.SFI, Channels: f.Ch, CRC: f.CRC}, f.raw())
 			raw, left, err := ad.Decode(fb)
@@ -440,14 +462,20 @@ func genOCase(t *rapid.T) OCase {
 			cfgs[i].Profile = profileOf(cfgs[i].Object)
 		}
 		for i := 0; i < n; i++ {
-			op := rapid.SampledFrom([]string{"set", "encode", "encode", "decode", "asc"}).Draw(t, "op")
+			op := rapid.SampledFrom([]string{"set", "encode", "encode", "decode", "decode", "asc", "decode-bad"}).Draw(t, "op")
 			if i == 0 {
 				op = "set"
 			}
 			f := rapid.SampledFrom(cfgs).Draw(t, "cfg")
 			f.Fill = rapid.Uint64().Draw(t, "fill")
 			f.Len = rapid.SampledFrom([]int{1, 2, 1, 2, 3, 8, 300, 8184}).Draw(t, "len")
-			if op == "decode" {
+			if op == "encode" && rapid.IntRange(0, 5).Draw(t, "owrapped") == 0 {
+				f.Len, f.Wrapped = rapid.SampledFrom([]int{8, 9, 40, 300}).Draw(t, "wlen"), true
+			}
+			if op == "decode-bad" {
+				f.Bad = rapid.SampledFrom([]uint8{13, 14, 15, 16}).Draw(t, "bad")
+			}
+			if op == "decode" || op == "decode-bad" {
 				f.ID = uint8(rapid.IntRange(0, 1).Draw(t, "id"))
 				f.PA = uint8(rapid.IntRange(0, 1).Draw(t, "pa"))
 				f.CRC = rapid.Uint16().Draw(t, "crc")
